@@ -1,5 +1,6 @@
 import TensorModel.Proofs.Ltoi
 import TensorModel.Proofs.CoreEq
+import TensorModel.Proofs.ItolInv
 /-!
   C01 — coordinate addressing is exact and bounds-checked.
   Property theorems only; helper lemmas live in `TensorModel/Proofs/Ltoi.lean`.
@@ -18,6 +19,28 @@ theorem ltoi_exact (shape : Shape) (strides c : List Int)
 theorem ltoi_rowMajor (shape : Shape) (c : List Int) (hc : inBox shape c = true) :
     ltoi shape (calcStrides shape) c = .ok (rowRank shape c) := by
   exact ltoi_exact' shape _ c (calcStrides_length shape) hc
+
+/-- **`Itol` inverts `Ltoi`** on the default row-major layout: splitting the flat offset of an in-box coordinate by the
+    strides (`divmod` axis by axis, as the iterators and the in-place transposition do) gives back exactly that
+    coordinate - any rank, any positive extents, any size of index (the arithmetic is over unbounded integers; the two
+    builds' `divmod` are tied to it by `C20.divmod_asm_spec` / `C20.divmod_go_source`). -/
+theorem itol_inverts_ltoi (shape : Shape) (hp : ∀ d ∈ shape, 0 < d) (c : List Int) (hc : inBox shape c = true) :
+    ∃ k, ltoi shape (calcStrides shape) c = .ok k ∧ itol k shape (calcStrides shape) = .ok c :=
+  ⟨rowRank shape c, ltoi_rowMajor shape c hc, itol_ltoi_rowMajor shape hp c hc⟩
+
+example : (match itol 2621440007 [65536, 65536] [65536, 1] with | .ok c => c == [40000, 7] | _ => false) = true := by decide
+
+/-- **source level (G)**: the regenerated `Itol` of `utils.go` delivers the model's coordinates and ends exactly when the
+    model does, for all arguments (`Proofs/CoreEq`); hence, on the default layout, the source's `Itol` applied to the
+    source's `Ltoi` of an in-box coordinate returns that coordinate. -/
+theorem Itol_source_coords (i : Int) (shape strides : List Int) (hl : strides.length ≤ shape.length) :
+    (match Gen.Itol i shape strides with | .ok r => some r.1 | .error _ => none) =
+      (match itol i shape strides with | .ok cs => some cs | .error _ => none) :=
+  Gen.Itol_coords i shape strides hl
+
+theorem Itol_source_inverts_ltoi (shape : Shape) (hp : ∀ d ∈ shape, 0 < d) (c : List Int) (hc : inBox shape c = true) :
+    (match Gen.Itol (rowRank shape c) shape (calcStrides shape) with | .ok r => some r.1 | .error _ => none) = some c := by
+  rw [Itol_source_coords _ _ _ (by rw [calcStrides_length]; exact Nat.le_refl _), itol_ltoi_rowMajor shape hp c hc]
 
 /-- With column-major strides (one per axis) the offset is the column-major rank. -/
 theorem ltoi_colMajor (shape : Shape) (c : List Int) (hc : inBox shape c = true) :
